@@ -75,7 +75,14 @@ impl Interval {
         let stride = if let Ok(start_diff) = start_diff.try_to_u64() {
             self.stride.gcd(other.stride).gcd(start_diff)
         } else {
-            1
+            // The difference of the start values does not fit into 64 bits (only possible for sizes larger than 8 bytes).
+            let stride_gcd = self.stride.gcd(other.stride);
+            match start_diff.try_to_u128() {
+                Ok(start_diff) if stride_gcd > 0 => {
+                    stride_gcd.gcd((start_diff % stride_gcd as u128) as u64)
+                }
+                _ => 1,
+            }
         };
         Interval { start, end, stride }
     }
